@@ -110,7 +110,9 @@ def build_repo(flavor="hooks", targets=("xalan-c", "Xalan")):
             if rc != 0:
                 shutil.rmtree(bd, ignore_errors=True)
                 raise RuntimeError("cmake configure failed for %s:\n%s" % (flavor, out[-3000:]))
-        rc, out = sh(["cmake", "--build", bd, "-j", str(NPROC), "--target"] + list(targets))
+        # the build runs its own tools (MsgCreator); do not let LeakSanitizer fail them in sanitizer flavors
+        benv = {"ASAN_OPTIONS": "detect_leaks=0"} if flavor in ("asan",) else None
+        rc, out = sh(["cmake", "--build", bd, "-j", str(NPROC), "--target"] + list(targets), env=benv)
         if rc != 0:
             raise RuntimeError("build of /repo working tree failed (%s):\n%s" % (flavor, out[-6000:]))
         return bd, time.time() - t0
